@@ -99,6 +99,25 @@ func VH_C19_clientack_accepted_only_with_cookie_for_same_address_and_key() {
 	hsCheckBound(hsLog[15], 'D', msg, cookieOff+PQCookieLen, SNILen, "C02: ClientAck: the encrypted server name is bound into the transcript")
 	verifAssert(verifAnd(hsLog[16].kind == 'S', hsEq(hsLog[16].out, msg[cookieOff+PQCookieLen+SNILen:], MacLen)), "C02: ClientAck: the MAC equals the expected squeeze")
 	verifAssert(hsEq(hs.dh.remoteEphemeral[:], msg[HeaderLen:], DHLen), "C02: ClientAck: the client ephemeral kept is the one received")
+	// C01: DH(ee) and DH(se) only prove anything if the server's ephemeral
+	// PRIVATE key is fresh randomness - never something derived from the
+	// cookie, the KEM secret or the datagram, all of which the client knows.
+	fresh := true
+	for i := 0; i < DHLen; i++ {
+		fresh = verifAnd(fresh, verifMentions(uint64(hs.dh.ephemeral.Private[i]), "dh-private"))
+	}
+	verifAssert(fresh, "C01: the server's ephemeral DH private key is freshly generated for this handshake (not restored from the cookie or anything else the client knows)")
+}
+
+func c01PublicFromPrivate(x *keys.X25519KeyPair) { copy(x.Public[:], verifFreshBytes("dh-public-derived", 32)) }
+
+//verif:prop C01
+//verif:replay none
+//verif:stub (*hop.computer/hop/keys.X25519KeyPair).PublicFromPrivate = c01PublicFromPrivate
+//verif:bounds as VH_C19_clientack_accepted_only_with_cookie_for_same_address_and_key
+//verif:cover accepted;rejected-cookie;rejected-mac
+func VH_C01_server_ephemeral_key_is_fresh_for_every_clientack() {
+	VH_C19_clientack_accepted_only_with_cookie_for_same_address_and_key()
 }
 
 func hsServerCert(tag string, withKEM bool) *Certificate {
@@ -354,7 +373,7 @@ func VH_C19_hidden_request_must_be_fresh() {
 	}
 	t := uint64(ts[0])<<56 | uint64(ts[1])<<48 | uint64(ts[2])<<40 | uint64(ts[3])<<32 | uint64(ts[4])<<24 | uint64(ts[5])<<16 | uint64(ts[6])<<8 | uint64(ts[7])
 	now := uint64(hsClock)
-	verifAssert(verifAnd(t <= now, now-t <= HiddenModeTimestampExpiration), "C19: a hidden request is answered only if its authenticated timestamp lies within the freshness window (not stale, not from the future)")
+	verifAssert(verifAnd(t <= now, now-t <= c19FreshnessSeconds), "C19: a hidden request is answered only if its authenticated timestamp lies within the freshness window (not stale, not from the future)")
 }
 
 // C01 (publication and the CONFIGURED policy): the server offers a connection
@@ -522,5 +541,98 @@ func VH_C10_server_readpacket_any_datagram() {
 	opened := len(sessLog.opens) > 0 && sessLog.opens[len(sessLog.opens)-1].ok
 	if !opened {
 		verifAssert(verifAnd(ss.window == oldWin, verifAnd(ss.handleState == oldState, ss.remoteAddr == oldAddr)), "C10: an established session is untouched by a datagram that did not authenticate for it")
+	}
+}
+
+// the freshness window of a hidden request, from the protocol description (a
+// literal, so that the repository's constant is checked against it)
+const c19FreshnessSeconds = 5
+
+// The cookie key exists from the moment the server does, HOWEVER its
+// certificates are configured: an all-zero key until the first rotation lets
+// anyone mint cookies for any address without ever sending a ClientHello.
+//
+//verif:prop C19
+//verif:replay none
+//verif:stub crypto/rand.Read = hsRandRead
+//verif:bounds NewServer's initialisation with the certificate given directly (KeyPair + Certificate) or through GetCertificate / GetCertList callbacks (the hopd / ACME configuration); randomness = fresh symbols
+//verif:cover direct;callbacks
+func VH_C19_cookie_key_is_random_from_the_start_in_every_configuration() {
+	s := &Server{}
+	if verifBool("certificates-through-callbacks") {
+		c := hsServerCert("cert", true)
+		s.config.GetCertificate = func(ClientHandshakeInfo) (*Certificate, error) { return c, nil }
+		s.config.GetCertList = func() ([]*Certificate, error) { return []*Certificate{c}, nil }
+		verifCover("callbacks")
+	} else {
+		s.config.KeyPair = &keys.X25519KeyPair{}
+		s.config.Certificate = &certs.Certificate{Type: certs.Leaf}
+		verifCover("direct")
+	}
+	err := s.init()
+	verifAssert(err == nil, "C19: the server initialises")
+	if err != nil {
+		return
+	}
+	all := true
+	for i := 0; i < KeyLen; i++ {
+		all = verifAnd(all, verifMentions(uint64(s.cookieKey[i]), "rand"))
+	}
+	verifAssert(all, "C19: every byte of the cookie key comes from the random source before the server handles its first datagram")
+}
+
+// C06: the principal's approval of the FIRST intent runs as the additional
+// verification callback of its handshake with the target. Whatever the
+// certificate policy of that connection (skip included), a refusing callback
+// refuses the connection - the same obligation as C01's, registered here.
+//
+//verif:prop C06
+//verif:replay none
+//verif:nostub (*hop.computer/hop/transport.HandshakeState).certificateParserAndVerifier
+//verif:stub (*hop.computer/hop/certs.Certificate).ReadFrom = c01CertReadFrom
+//verif:stub (hop.computer/hop/certs.Store).VerifyLeaf = c01StoreVerify
+//verif:stub (*hop.computer/hop/authkeys.SyncAuthKeySet).VerifyLeaf = c01AuthKeysVerify
+//verif:bounds as VH_C01_policy_verdict_is_exactly_the_configured_policy
+//verif:cover accepted;refused
+func VH_C06_approval_callback_is_consulted_under_every_certificate_policy() {
+	VH_C01_policy_verdict_is_exactly_the_configured_policy()
+}
+
+// The server's receive loop reuses one 64 KiB buffer: a ClientAuth datagram
+// that is SHORTER than the message it announces must never be completed from
+// whatever an earlier datagram left behind in that buffer.
+//
+//verif:prop C02
+//verif:replay none
+//verif:bounds pending discoverable handshake; ClientAuth datagram announcing 12 certificate bytes, delivered whole or cut short by 1, 20 or 32 bytes, into a receive buffer whose other 65535 bytes are arbitrary (stale) and symbolic; duplex outputs fresh
+//verif:cover whole-accepted;short-rejected;whole-rejected
+//verif:timeout 600
+func VH_C02_server_never_completes_a_short_clientauth_from_stale_buffer_bytes() {
+	hsReset()
+	s, u := hsServer(false)
+	list := []*Certificate{hsServerCert("cert", true)}
+	s.config.GetCertList = func() ([]*Certificate, error) { return list, nil }
+	s.config.GetCertificate = func(ClientHandshakeInfo) (*Certificate, error) { return list[0], nil }
+	s.config.HandshakeTimeout = time.Second
+	u.inAddr = sessAddr4(10, 0, 0, 1, 4000)
+	pending := hsNewState()
+	s.setHandshakeState(u.inAddr, pending)
+	L := 12
+	full := HeaderLen + SessionIDLen + L + 2*MacLen
+	cut := verifPick("cut-short-by", 0, 1, 20, 32)
+	n := full - cut
+	u.in, u.inLen = verifBytes("datagram", n), n
+	u.in[0], u.in[1], u.in[2], u.in[3] = byte(MessageTypeClientAuth), 0, 0, byte(L)
+	raw := verifBytes("receive-buffer-as-left-by-earlier-datagrams", 65535)
+	_ = s.readPacket(raw, make([]byte, 65535))
+	if len(s.pendingConnections) > 0 {
+		verifCover("whole-accepted")
+		verifAssert(cut == 0, "C02: the server completes a handshake only from a ClientAuth datagram that carries the WHOLE message (truncated datagrams are never completed from stale receive-buffer bytes)")
+		return
+	}
+	if cut > 0 {
+		verifCover("short-rejected")
+	} else {
+		verifCover("whole-rejected")
 	}
 }
